@@ -38,6 +38,11 @@ Theorem C14_support : forall k n t x i, admissible k n t -> (i < n)%nat ->
   x < tn t i \/ tn t (i + k) < x -> bsplev x i k t None = Ok 0.
 Proof. exact bsplev_support. Qed.
 
+(* ... and on every span other than its own k spans (x = t_{i+k} included: it belongs to span i+k) *)
+Theorem C14_support_span : forall k n t j x i, admissible k n t -> in_span k n t j x -> (i < n)%nat ->
+  ~ (i <= j < i + k)%nat -> bsplev x i k t None = Ok 0.
+Proof. exact bsplev_support_span. Qed.
+
 Theorem C14_nonneg : forall k n t x i, admissible k n t -> tn t (k - 1) <= x <= tn t n -> (i < n)%nat ->
   exists v, bsplev x i k t None = Ok v /\ 0 <= v.
 Proof. exact bsplev_nonneg. Qed.
@@ -83,6 +88,7 @@ Print Assumptions C14_standard_admissible.
 Print Assumptions C14_span_exists.
 Print Assumptions C14_value.
 Print Assumptions C14_support.
+Print Assumptions C14_support_span.
 Print Assumptions C14_nonneg.
 Print Assumptions C14_unity.
 Print Assumptions C14_high_m.
